@@ -388,8 +388,6 @@ def oracle(c, ir):
     return None
 
 def known(c, fail):
-    if c['fwd']:
-        return 'C05-forward-palette'
     if c['last_real']:
         return 'C05-key-last-entry'
     return None
